@@ -153,7 +153,10 @@ PROVED = {
         "names only for plain characters (F06).",
  "C05": "the children-slot protocol of the runtime equals lexical scoping for every program of the skeleton language (Runtime/Children.v).",
  "C06": "NO DEADLOCK for every input: every lexer state call emits at most 4 tokens on every cursor (channel holds 64), lifted through every parser "
-        "function to compile_parse; no-panic and no-hang rest on the correspondence run only: partial.",
+        "function to compile_parse. NO PANIC for every input: a cursor invariant (line counters never negative, one more line than the pending string has "
+        "newlines, a rune just read can be given back) is kept by every primitive, every helper and every state function, so none of the ten index and "
+        "slice expressions of lexer.go is ever out of range (the model raises its panic flag exactly there); lifted through pump and parser to "
+        "compile_parse input <> OPanic. No-hang rests on the correspondence run only: partial.",
  "C07": "the writer's line/column counter is the end position of the generated text; every source-map entry points at the place its fragment was written; "
         "character k of a fragment sits where walking k characters from the target leads; end to end for one-line fragments the template position maps to "
         "the generated position holding the same character (byte columns; UTF-16 after non-ASCII is F15).",
